@@ -1,0 +1,409 @@
+//go:build verif
+
+// Contracts for package pdf, checked by /verif/bin/gocv (see /verif/DESIGN.md).
+// This file contains comments only.
+
+package pdf
+
+//@ package seehuhn.de/go/pdf
+
+// ---- lexical classes (ISO 32000-2, 7.2.3) ----
+//@ spec func isSpace(c int) bool = c == 0 || c == 9 || c == 10 || c == 12 || c == 13 || c == 32
+//@ spec func isDelim(c int) bool = c == '(' || c == ')' || c == '<' || c == '>' || c == '[' || c == ']' || c == '{' || c == '}' || c == '/' || c == '%'
+//@ spec func isRegular(c int) bool = !isSpace(c) && !isDelim(c)
+//@ spec func isHex(c int) bool = ('0' <= c && c <= '9') || ('A' <= c && c <= 'F') || ('a' <= c && c <= 'f')
+//@ spec func hexVal(c int) int = c <= '9' ? c - '0' : c <= 'F' ? c - 'A' + 10 : c - 'a' + 10
+
+//@ func hexDigit (c) (d)
+//@   pure
+//@   tags C01 C04 C05
+//@   ensures isHex(c) ==> d == hexVal(c)
+//@   ensures !isHex(c) ==> d == 255
+
+// ---- permissions (ISO 32000-2 Table 22; bits are 1-based) ----
+//@ spec func has(perm int, m int) bool = (perm / m) % 2 == 1
+//@ spec func specPermToP(perm int) int = 4294967295 - (3 + (has(perm,1) ? 0 : 16) + (has(perm,4) ? 0 : (2048 + (has(perm,2) ? 0 : 4))) + (has(perm,16) ? 0 : (32 + (has(perm,8) ? 0 : 256))) + (has(perm,32) ? 0 : 1024) + (has(perm,64) ? 0 : 8))
+//@ spec func closure(perm int) int = perm % 128 + (has(perm,4) && !has(perm,2) ? 2 : 0) + (has(perm,16) && !has(perm,8) ? 8 : 0) + (has(perm,64) && !has(perm,32) ? 32 : 0)
+//@ spec func pb(P int, k int) bool = (P / k) % 2 == 1
+//@ spec func specPToPerm(R int, P int) int = 1 * (pb(P,16) ? 1 : 0)
+//@   | + ((R == 2 ? pb(P,4) : (R >= 3 ? (pb(P,4) || pb(P,2048)) : true)) ? 2 : 0)
+//@   | + ((R == 2 ? pb(P,4) : (R >= 3 ? (!pb(P,4) || pb(P,2048)) && (pb(P,4) || pb(P,2048)) : true)) ? 4 : 0)
+//@   | + ((pb(P,32) || pb(P,256)) ? 8 : 0) + (pb(P,32) ? 16 : 0) + ((pb(P,8) || pb(P,1024)) ? 32 : 0) + (pb(P,8) ? 64 : 0)
+
+//@ func stdSecPermToP (perm) (P)
+//@   pure
+//@   tags C09
+//@   requires 0 <= perm && perm <= 127
+//@   ensures P == specPermToP(perm)
+
+//@ func stdSecPToPerm (R, P) (perm)
+//@   pure
+//@   tags C09
+//@   ensures perm == specPToPerm(R, P)
+
+//@ lemma permRoundTrip(perm int, R int)
+//@   tags C09
+//@   requires 0 <= perm && perm <= 127 && R >= 3
+//@   ensures specPToPerm(R, specPermToP(perm)) == closure(perm)
+
+//@ func decodeInt (buf) (res, err)
+//@   pure
+//@   tags C02 C04
+//@   requires len(buf) <= 8
+//@   loop 1: invariant 0 <= res && res < pow256(\done)
+//@   loop 1: invariant res == beVal(buf, \done)
+//@   ensures err == nil ==> res == beVal(buf, len(buf))
+//@   ensures err != nil ==> beVal(buf, len(buf)) > 9223372036854775807
+//@ spec func pow256(k int) int = k <= 0 ? 1 : k == 1 ? 256 : k == 2 ? 65536 : k == 3 ? 16777216 : k == 4 ? 4294967296 : k == 5 ? 1099511627776 : k == 6 ? 281474976710656 : k == 7 ? 72057594037927936 : 18446744073709551616
+//@ spec rec func beVal(b seq, k int) int = k <= 0 ? 0 : beVal(b, k-1) * 256 + b[k-1]
+
+//@ func (*xRefEntry).IsFree (entry) (free)
+//@   pure
+//@   tags C04
+//@   ensures free == (entry == nil || entry.Pos < 0)
+
+// ---- scanner: buffer abstraction (DESIGN.md Appendix A) ----
+// Ghost: s.src.stream is everything the byte source will ever deliver, s.src.rdpos how
+// much of it has been consumed, s.src.fails whether the source ends with a non-EOF error;
+// s.P0 is the file offset of stream[0].
+//@ ghost P0 int
+//@ pred R(s *scanner) = 0 <= s.pos && s.pos <= s.used && s.used <= len(s.buf) && len(s.buf) == 1024 && s.src != nil
+//@   | && 0 <= s.P0 && s.P0 <= s.filePos && s.P0 <= 281474976710656 && len(s.src.stream) <= 281474976710656
+//@   | && s.src.rdpos == s.filePos - s.P0 + s.used && s.src.rdpos <= len(s.src.stream)
+//@   | && (forall j in offof(s.buf)+s.pos..offof(s.buf)+s.used :: raw(s.buf)[j] == s.src.stream[s.filePos - s.P0 + j - offof(s.buf)])
+//@   | && (s.err != nil ==> s.src.fails && s.src.rdpos == len(s.src.stream) && s.err != io.EOF && s.err != io.ErrUnexpectedEOF && !malformed(s.err))
+//@ pred apos(s *scanner) = s.filePos + s.pos
+
+//@ func (*scanner).refill (s) (err)
+//@   tags C01 C04 C05 C19 C20
+//@   requires R(s)
+//@   assigns s.filePos, s.pos, s.used, s.err, elems(s.buf), s.src.rdpos
+//@   ensures R(s)
+//@   ensures s.filePos + s.pos == old(s.filePos + s.pos) && s.P0 == old(s.P0)
+//@   ensures s.used - s.pos >= old(s.used - s.pos)
+//@   ensures old(s.err) == nil ==> s.pos == 0
+//@   ensures old(s.err) != nil ==> err == old(s.err) && s.pos == old(s.pos) && s.used == old(s.used)
+//@   ensures err == nil && s.err == nil && s.used < 1024 ==> s.src.rdpos == len(s.src.stream) && !s.src.fails
+//@   ensures err != nil ==> err == s.err && s.src.fails
+//@   ensures err == nil && s.err != nil ==> s.used > 0
+//@   ensures err != nil ==> s.used - s.pos == old(s.used - s.pos)
+//@   ensures s.src.stream == old(s.src.stream)
+
+//@ pred scanFrame(s *scanner) = s.P0 == old(s.P0) && s.src.stream == old(s.src.stream) && s.src == old(s.src) && s.src.fails == old(s.src.fails) && refof(s.buf) == old(refof(s.buf))
+//@ pred atEnd(s *scanner) = s.filePos + s.pos - s.P0 == len(s.src.stream)
+//@ pred avail(s *scanner) = len(s.src.stream) - (s.filePos + s.pos - s.P0)
+
+//@ func (*scanner).PeekN (s, n) (view, err)
+//@   tags C01 C04 C05 C19 C20
+//@   requires R(s) && 0 <= n && n <= 1024
+//@   assigns s.filePos, s.pos, s.used, s.err, elems(s.buf), s.src.rdpos
+//@   ensures R(s) && scanFrame(s)
+//@   ensures apos(s) == old(apos(s))
+//@   ensures refof(view) == refof(s.buf) && offof(view) == offof(s.buf) + s.pos && len(view) <= s.used - s.pos
+//@   ensures len(view) == min(n, avail(s)) && s.used - s.pos >= old(s.used - s.pos)
+//@   ensures err != nil ==> len(view) < n && s.src.fails && err == s.err
+//@   ensures len(view) < n && s.src.fails ==> err != nil
+
+//@ func (*scanner).ReadByte (s) (c, err)
+//@   tags C01 C04 C05 C19 C20
+//@   requires R(s)
+//@   assigns s.filePos, s.pos, s.used, s.err, elems(s.buf), s.src.rdpos
+//@   ensures R(s) && scanFrame(s)
+//@   ensures err == nil ==> apos(s) == old(apos(s)) + 1 && c == s.src.stream[old(apos(s)) - s.P0]
+//@   ensures err != nil ==> apos(s) == old(apos(s)) && atEnd(s)
+//@   ensures err != nil && err != io.EOF ==> s.src.fails && err == s.err
+//@   ensures err == io.EOF ==> !s.src.fails
+
+//@ func (*scanner).ScanBytes (s, accept) (err)
+//@   tags C01 C04 C05 C19 C20
+//@   inline
+//@   callback accept pure
+//@   requires R(s)
+//@   assigns s.filePos, s.pos, s.used, s.err, elems(s.buf), s.src.rdpos
+//@   ensures R(s) && scanFrame(s)
+//@   ensures apos(s) >= old(apos(s))
+//@   ensures err == io.EOF ==> atEnd(s) && !s.src.fails
+//@   ensures err != nil && err != io.EOF ==> s.src.fails && err == s.err && atEnd(s)
+//@   ensures s.src.fails && atEnd(s) ==> err != nil
+//@   loop 1: invariant R(s) && scanFrame(s) && apos(s) >= old(apos(s)) && (empty <==> apos(s) == old(apos(s)))
+//@   loop 1: decreases avail(s), (s.pos < s.used ? 0 : 1)
+//@   loop 2: invariant R(s) && scanFrame(s) && apos(s) >= old(apos(s)) && (empty <==> apos(s) == old(apos(s)))
+//@   loop 2: decreases s.used - s.pos
+
+//@ func (*scanner).SkipString (s, pat) (err)
+//@   tags C01 C04 C05 C19 C20
+//@   requires R(s) && len(pat) <= 1024
+//@   assigns s.filePos, s.pos, s.used, s.err, elems(s.buf), s.src.rdpos
+//@   ensures R(s) && scanFrame(s)
+//@   ensures err == nil ==> apos(s) == old(apos(s)) + len(pat)
+//@   ensures err == nil ==> forall i in 0..len(pat) :: s.src.stream[old(apos(s)) - s.P0 + i] == pat[i]
+//@   ensures err != nil ==> apos(s) == old(apos(s))
+//@   ensures err != nil ==> malformed(err) || (s.src.fails && err == s.err)
+//@   ensures s.src.fails && old(avail(s)) < len(pat) ==> err != nil && !malformed(err)
+
+//@ func (*scanner).tryHex (s) (b, ok)
+//@   tags C01 C04 C05
+//@   requires R(s)
+//@   assigns s.filePos, s.pos, s.used, s.err, elems(s.buf), s.src.rdpos
+//@   ensures R(s) && scanFrame(s)
+//@   ensures ok ==> apos(s) == old(apos(s)) + 3 && avail(s) >= 0
+//@   ensures ok ==> isHex(s.src.stream[old(apos(s)) - s.P0 + 1]) && isHex(s.src.stream[old(apos(s)) - s.P0 + 2])
+//@   ensures ok ==> b == 16 * hexVal(s.src.stream[old(apos(s)) - s.P0 + 1]) + hexVal(s.src.stream[old(apos(s)) - s.P0 + 2])
+//@   ensures !ok ==> apos(s) == old(apos(s)) && s.used - s.pos >= old(s.used - s.pos)
+//@   ensures !ok ==> old(avail(s)) < 3 || !isHex(s.src.stream[old(apos(s)) - s.P0 + 1]) || !isHex(s.src.stream[old(apos(s)) - s.P0 + 2])
+
+// class table against the lexical classes of ISO 32000-2, 7.2.3 (Tables 1 and 2)
+//@ global class (C01 C04 C05 C15) forall c in 0..256 :: class[c] == (isSpace(c) ? 1 : isDelim(c) ? 2 : 0)
+
+// ---- white space and comments (7.2.3, 7.2.4) ----
+// inCmt(b, p0, k): scanning from p0 (outside a comment), position k lies inside a comment
+//@ spec rec func inCmt(b seq, p0 int, k int) bool = k <= p0 ? false : (inCmt(b, p0, k-1) ? !(b[k-1] == 13 || b[k-1] == 10) : b[k-1] == '%')
+//@ spec func wsAt(b seq, p0 int, j int) bool = inCmt(b, p0, j) || b[j] == '%' || isSpace(b[j])
+
+//@ func (*scanner).SkipWhiteSpace (s) (err)
+//@   tags C01 C04 C05 C19 C20
+//@   requires R(s)
+//@   assigns s.filePos, s.pos, s.used, s.err, elems(s.buf), s.src.rdpos
+//@   ensures R(s) && scanFrame(s)
+//@   ensures apos(s) >= old(apos(s))
+//@   ensures forall j in old(apos(s)) - s.P0 .. apos(s) - s.P0 :: wsAt(s.src.stream, old(apos(s)) - s.P0, j)
+//@   ensures err == nil ==> avail(s) > 0 && !wsAt(s.src.stream, old(apos(s)) - s.P0, apos(s) - s.P0)
+//@   ensures err == io.EOF ==> atEnd(s) && !s.src.fails
+//@   ensures err != nil && err != io.EOF ==> s.src.fails && err == s.err && atEnd(s)
+//@   ensures s.src.fails && atEnd(s) ==> err != nil && err != io.EOF
+//@   loop ScanBytes.1: invariant isComment == inCmt(s.src.stream, old(apos(s)) - s.P0, apos(s) - s.P0)
+//@   loop ScanBytes.1: invariant forall j in old(apos(s)) - s.P0 .. apos(s) - s.P0 :: wsAt(s.src.stream, old(apos(s)) - s.P0, j)
+//@   loop ScanBytes.2: invariant isComment == inCmt(s.src.stream, old(apos(s)) - s.P0, apos(s) - s.P0)
+//@   loop ScanBytes.2: invariant forall j in old(apos(s)) - s.P0 .. apos(s) - s.P0 :: wsAt(s.src.stream, old(apos(s)) - s.P0, j)
+
+// ---- names (7.3.5) ----
+//@ spec func nmStop(b seq, p int) bool = p >= len(b) || !isRegular(b[p])
+//@ spec func nmEsc(b seq, p int) bool = b[p] == '#' && p + 2 < len(b) && isHex(b[p+1]) && isHex(b[p+2])
+//@ spec func nmNext(b seq, p int) int = nmEsc(b, p) ? p + 3 : p + 1
+//@ spec func nmByte(b seq, p int) int = nmEsc(b, p) ? 16 * hexVal(b[p+1]) + hexVal(b[p+2]) : b[p]
+//@ spec rec func nmPos(b seq, st int, k int) int = k <= 0 ? st : nmNext(b, nmPos(b, st, k-1))
+
+//@ func (*scanner).ReadName (s) (res, err)
+//@   tags C01 C04 C05 C19 C20
+//@   requires R(s)
+//@   assigns s.filePos, s.pos, s.used, s.err, elems(s.buf), s.src.rdpos
+//@   ensures R(s) && scanFrame(s)
+//@   ensures apos(s) >= old(apos(s))
+//@   ensures err == nil ==> s.src.stream[old(apos(s)) - s.P0] == '/'
+//@   ensures err == nil ==> apos(s) - s.P0 == nmPos(s.src.stream, old(apos(s)) + 1 - s.P0, len(res)) && nmStop(s.src.stream, apos(s) - s.P0)
+//@   ensures err == nil ==> forall k in 0..len(res) :: res[k] == nmByte(s.src.stream, nmPos(s.src.stream, old(apos(s)) + 1 - s.P0, k)) && !nmStop(s.src.stream, nmPos(s.src.stream, old(apos(s)) + 1 - s.P0, k))
+//@   ensures err != nil ==> malformed(err) || (s.src.fails && err == s.err)
+//@   ensures s.src.fails && atEnd(s) ==> err != nil && !malformed(err)
+//@   loop 1: invariant R(s) && scanFrame(s) && apos(s) > old(apos(s))
+//@   loop 1: invariant apos(s) - s.P0 == nmPos(s.src.stream, old(apos(s)) + 1 - s.P0, len(res)) && avail(s) >= 0
+//@   loop 1: invariant refof(res) == 0 || refof(res) > \top0
+//@   loop 1: invariant forall j in offof(res)..offof(res)+len(res) :: raw(res)[j] == nmByte(s.src.stream, nmPos(s.src.stream, old(apos(s)) + 1 - s.P0, j - offof(res))) && !nmStop(s.src.stream, nmPos(s.src.stream, old(apos(s)) + 1 - s.P0, j - offof(res)))
+//@   loop 1: decreases avail(s)
+
+// ---- writing names (7.3.5): every byte outside '!'..'~', every delimiter and '#' is written as #xx ----
+//@ spec func nameFunny(c int) bool = !isRegular(c) || c < 33 || c > 126 || c == '#'
+//@ spec func nameW(c int) int = nameFunny(c) ? 3 : 1
+//@ spec rec func nameEncLen(l seq, k int) int = k <= 0 ? 0 : nameEncLen(l, k-1) + nameW(l[k-1])
+//@ spec func nameEncAt(o seq, p int, c int) bool = nameFunny(c) ? (o[p] == '#' && o[p+1] == hexLow(c / 16) && o[p+2] == hexLow(c % 16)) : o[p] == c
+//@ spec rec func cntFunny(l seq, k int) int = k <= 0 ? 0 : cntFunny(l, k-1) + (nameFunny(l[k-1]) ? 1 : 0)
+
+//@ lemma cntMono(l seq, a int, b int)
+//@   tags C01 C15
+//@   induct b
+//@   requires 0 <= a && a <= b
+//@   ensures cntFunny(l, a) <= cntFunny(l, b)
+//@   ensures cntFunny(l, a) == cntFunny(l, b) ==> forall j in a..b :: !nameFunny(l[j])
+
+//@ lemma cleanRun(l seq, a int, b int)
+//@   tags C01 C15
+//@   induct b
+//@   requires 0 <= a && a <= b && forall m in a..b :: !nameFunny(l[m])
+//@   ensures forall j in a..b+1 :: nameEncLen(l, j) == nameEncLen(l, a) + (j - a)
+
+//@ func formatName (w, name) (err)
+//@   tags C01 C15
+//@   requires w != nil
+//@   assigns w.log
+//@   ensures forall i in 0..old(len(w.log)) :: w.log[i] == old(w.log[i])
+//@   ensures err == nil ==> len(w.log) == old(len(w.log)) + 1 + nameEncLen(name, len(name)) && w.log[old(len(w.log))] == '/'
+//@   ensures err == nil ==> forall j in 0..len(name) :: nameEncAt(w.log, old(len(w.log)) + 1 + nameEncLen(name, j), name[j])
+//@   loop 1: invariant len(funny) == cntFunny(l, \done) && (refof(funny) == 0 || refof(funny) > \top0)
+//@   loop 1: invariant forall j in offof(funny)..offof(funny)+len(funny) :: 0 <= raw(funny)[j] && raw(funny)[j] < \done && nameFunny(l[raw(funny)[j]]) && cntFunny(l, raw(funny)[j]) == j - offof(funny)
+//@   loop 1: invariant forall j in offof(funny)+1..offof(funny)+len(funny) :: raw(funny)[j-1] < raw(funny)[j]
+//@   loop 2: invariant pos == (\done == 0 ? 0 : funny[\done - 1] + 1) && 0 <= pos && pos <= n && cntFunny(l, pos) == \done
+//@   loop 2: invariant len(w.log) == old(len(w.log)) + 1 + nameEncLen(l, pos) && w.log[old(len(w.log))] == '/' && len(w.log) > old(len(w.log)) && nameEncLen(l, pos) >= 0
+//@   loop 2: invariant forall i in 0..old(len(w.log)) :: w.log[i] == old(w.log[i])
+//@   loop 2: invariant forall j in 0..pos :: nameEncAt(w.log, old(len(w.log)) + 1 + nameEncLen(l, j), l[j]) && 0 <= nameEncLen(l, j) && nameEncLen(l, j) + nameW(l[j]) <= nameEncLen(l, pos)
+//@   loop 2: apply cntMono(l, pos, funny[\done])
+//@   loop 2: apply cleanRun(l, pos, funny[\done])
+//@   loop 2: apply cntMono(l, pos, n)
+//@   loop 2: apply cleanRun(l, pos, n)
+
+// ---- round trip of names at the level of the two specifications: what formatName's
+// postcondition describes, ReadName's postcondition decodes to the original bytes ----
+//@ lemma encMono(l seq, a int, b int)
+//@   tags C01 C15
+//@   induct b
+//@   requires 0 <= a && a <= b
+//@   ensures nameEncLen(l, a) + (b - a) <= nameEncLen(l, b)
+
+//@ lemma nameRoundTrip(l seq, o seq, k int)
+//@   tags C01 C15
+//@   induct k
+//@   requires forall j in 0..len(l) :: nameEncAt(o, nameEncLen(l, j), l[j]) && 0 <= l[j] && l[j] <= 255
+//@   requires forall j in 0..len(l) :: nameEncLen(l, j) + nameW(l[j]) <= len(o) && 0 <= nameEncLen(l, j)
+//@   requires 0 <= k && k <= len(l)
+//@   ensures nmPos(o, 0, k) == nameEncLen(l, k)
+//@   ensures k < len(l) ==> nmByte(o, nameEncLen(l, k)) == l[k] && !nmStop(o, nameEncLen(l, k))
+
+// ---- error classes (C19, C20) ----
+//@ func IsMalformed (err) (r)
+//@   trusted
+//@   pure
+//@   ensures r == malformed(err)
+
+//@ func Wrap (err, loc) (r)
+//@   trusted
+//@   assigns nothing
+//@   ensures (r == nil) == (err == nil) && malformed(r) == malformed(err)
+//@   ensures r != io.EOF && r != io.ErrUnexpectedEOF
+
+//@ func (*scanner).CurrentPos (s) (p)
+//@   tags C04 C05
+//@   pure
+//@   ensures p == s.filePos + s.pos
+
+//@ func (*scanner).Discard (s, n) (err)
+//@   tags C04 C05 C19 C20
+//@   requires R(s) && 0 <= n && n <= 281474976710656
+//@   assigns s.filePos, s.pos, s.used, s.src.rdpos
+//@   ensures R(s) && scanFrame(s)
+//@   ensures apos(s) >= old(apos(s)) && apos(s) <= old(apos(s)) + n
+//@   ensures err == nil ==> apos(s) == old(apos(s)) + n
+//@   ensures err != nil ==> atEnd(s)
+//@   ensures err != nil && err != io.EOF ==> s.src.fails && !malformed(err)
+//@   ensures err == io.EOF ==> !s.src.fails
+
+//@ func (*scanner).ReadInteger (s) (x, err)
+//@   tags C01 C04 C05 C19 C20
+//@   requires R(s)
+//@   assigns s.filePos, s.pos, s.used, s.err, elems(s.buf), s.src.rdpos
+//@   ensures R(s) && scanFrame(s) && apos(s) >= old(apos(s))
+//@   ensures err != nil && !malformed(err) && err != io.EOF ==> s.src.fails && err == s.err
+//@   ensures err == io.EOF ==> atEnd(s) && !s.src.fails
+//@   ensures s.src.fails && atEnd(s) ==> err != nil && !malformed(err) && err != io.EOF
+//@   loop ScanBytes.1: invariant refof(res) == 0 || refof(res) > \top0
+//@   loop ScanBytes.2: invariant refof(res) == 0 || refof(res) > \top0
+
+//@ func (*scanner).ReadNumber (s) (x, err)
+//@   tags C01 C04 C05 C19 C20
+//@   requires R(s)
+//@   assigns s.filePos, s.pos, s.used, s.err, elems(s.buf), s.src.rdpos
+//@   ensures R(s) && scanFrame(s) && apos(s) >= old(apos(s))
+//@   ensures err != nil && !malformed(err) ==> s.src.fails && err == s.err
+//@   ensures s.src.fails && atEnd(s) ==> err != nil && !malformed(err)
+//@   loop ScanBytes.1: invariant refof(res) == 0 || refof(res) > \top0
+//@   loop ScanBytes.2: invariant refof(res) == 0 || refof(res) > \top0
+
+//@ func (*encryptInfo).DecryptBytes (enc, ref, buf) (out, err)
+//@   trusted
+//@   assigns elems(buf)
+//@   ensures err == nil ==> (refof(out) == refof(buf) && len(out) <= len(buf) && offof(out) >= offof(buf) && offof(out) + len(out) <= offof(buf) + len(buf))
+//@   ensures err != io.EOF
+
+//@ func (*scanner).ReadHexString (s) (res, err)
+//@   tags C01 C04 C05 C19 C20
+//@   requires R(s)
+//@   assigns s.filePos, s.pos, s.used, s.err, elems(s.buf), s.src.rdpos
+//@   ensures R(s) && scanFrame(s) && apos(s) >= old(apos(s))
+//@   ensures s.enc == nil ==> (err != nil && !malformed(err) && err != io.EOF ==> s.src.fails && err == s.err)
+//@   ensures err == io.EOF ==> atEnd(s) && !s.src.fails
+//@   loop ScanBytes.1: invariant refof(res) == 0 || refof(res) > \top0
+//@   loop ScanBytes.2: invariant refof(res) == 0 || refof(res) > \top0
+
+//@ func (*scanner).ReadString (s) (res, err)
+//@   tags C01 C04 C05 C19 C20
+//@   requires R(s)
+//@   assigns s.filePos, s.pos, s.used, s.err, elems(s.buf), s.src.rdpos
+//@   ensures R(s) && scanFrame(s) && apos(s) >= old(apos(s))
+//@   ensures s.enc == nil ==> (err != nil && !malformed(err) && err != io.EOF ==> s.src.fails && err == s.err)
+//@   ensures err == io.EOF ==> atEnd(s) && !s.src.fails
+//@   loop 1: invariant R(s) && scanFrame(s) && apos(s) >= old(apos(s)) && (refof(res) == 0 || refof(res) > \top0)
+//@   loop 1: decreases avail(s), (ignoreLF ? 1 : 0)
+//@   loop 2: invariant R(s) && scanFrame(s) && apos(s) >= pre(apos(s)) && (refof(res) == 0 || refof(res) > \top0)
+
+// ---- references ----
+//@ func NewReference (number, generation) (r)
+//@   tags C01 C04 C05
+//@   pure
+//@   requires number < 16777216
+//@   ensures r == number + generation * 4294967296
+
+//@ func (Reference).Number (x) (n)
+//@   tags C01 C04
+//@   pure
+//@   ensures n == x % 4294967296
+
+//@ func (Reference).Generation (x) (g)
+//@   tags C01 C04
+//@   pure
+//@   ensures g == (x / 4294967296) % 65536
+
+// ---- composite objects: panic-freedom, buffer invariant, nesting bound, error classes ----
+//@ pred RN(s *scanner) = R(s) && 0 <= s.nestDepth && s.nestDepth <= 256
+
+//@ func (*scanner).ReadStreamData (s, dict) (stm, err)
+//@   trusted
+//@   assigns s.filePos, s.pos, s.used, s.err, elems(s.buf), s.src.rdpos, mapof(dict)
+//@   ensures RN(s) && scanFrame(s) && apos(s) >= old(apos(s)) && s.nestDepth == old(s.nestDepth)
+//@   ensures err != nil && !malformed(err) ==> s.src.fails
+//@   ensures err != io.EOF
+
+//@ func (*scanner).ReadArray (s) (array, err)
+//@   tags C01 C04 C05 C19 C20
+//@   requires RN(s)
+//@   assigns s.filePos, s.pos, s.used, s.err, elems(s.buf), s.src.rdpos, s.nestDepth
+//@   ensures RN(s) && scanFrame(s) && apos(s) >= old(apos(s)) && s.nestDepth == old(s.nestDepth)
+//@   ensures s.enc == nil ==> (err != nil && !malformed(err) ==> s.src.fails)
+//@   ensures err == nil ==> refof(array) > \top0
+//@   ensures err != io.EOF
+//@   loop 1: invariant R(s) && scanFrame(s) && apos(s) >= old(apos(s)) && s.nestDepth == old(s.nestDepth) + 1 && s.nestDepth <= 256
+//@   loop 1: invariant refof(array) > \top0 && 0 <= integersSeen && integersSeen <= len(array)
+//@   loop 1: invariant forall j in offof(array) + len(array) - integersSeen .. offof(array) + len(array) :: istype(raw(array)[j], Integer)
+
+//@ func (*scanner).ReadDict (s) (dict, err)
+//@   tags C01 C04 C05 C19 C20
+//@   requires RN(s)
+//@   assigns s.filePos, s.pos, s.used, s.err, elems(s.buf), s.src.rdpos, s.nestDepth
+//@   ensures RN(s) && scanFrame(s) && apos(s) >= old(apos(s)) && s.nestDepth == old(s.nestDepth)
+//@   ensures s.enc == nil ==> (err != nil && !malformed(err) ==> s.src.fails)
+//@   ensures err == nil ==> dict > \top0
+//@   ensures err != io.EOF
+//@   loop 1: invariant R(s) && scanFrame(s) && apos(s) >= old(apos(s)) && s.nestDepth == old(s.nestDepth) + 1 && s.nestDepth <= 256
+//@   loop 1: invariant dict != nil && dict > \top0
+
+//@ func (*scanner).ReadObject (s) (obj, err)
+//@   tags C01 C04 C05 C19 C20
+//@   requires RN(s)
+//@   assigns s.filePos, s.pos, s.used, s.err, elems(s.buf), s.src.rdpos, s.nestDepth
+//@   ensures RN(s) && scanFrame(s) && apos(s) >= old(apos(s)) && s.nestDepth == old(s.nestDepth)
+//@   ensures s.enc == nil ==> (err != nil && !malformed(err) && err != io.EOF ==> s.src.fails)
+//@   ensures err == io.EOF ==> atEnd(s) && !s.src.fails
+
+//@ func (*scanner).readIndirectObject (s) (obj, ref, err)
+//@   tags C04 C05 C19 C20
+//@   requires RN(s)
+//@   assigns s.filePos, s.pos, s.used, s.err, elems(s.buf), s.src.rdpos, s.nestDepth, s.enc, s.encRef
+//@   ensures RN(s) && scanFrame(s) && apos(s) >= old(apos(s)) && s.nestDepth == old(s.nestDepth)
+//@   ensures old(s.enc) == nil ==> (err != nil && !malformed(err) && err != io.EOF ==> s.src.fails)
+//@   ensures err == io.EOF ==> !s.src.fails
+//@   ensures err == nil ==> ref % 4294967296 < 16777216
+
+//@ func (*scanner).ReadIndirectObject (s) (obj, ref, err)
+//@   tags C04 C05 C19 C20
+//@   requires RN(s)
+//@   assigns s.filePos, s.pos, s.used, s.err, elems(s.buf), s.src.rdpos, s.nestDepth, s.enc, s.encRef
+//@   ensures RN(s) && scanFrame(s) && apos(s) >= old(apos(s)) && s.nestDepth == old(s.nestDepth)
+//@   ensures old(s.enc) == nil ==> (err != nil && !malformed(err) ==> s.src.fails)
+//@   ensures err != io.EOF && err != io.ErrUnexpectedEOF
+//@   ensures err == nil ==> ref % 4294967296 < 16777216
